@@ -70,13 +70,15 @@ def _mutant(idx, m, tag=""):
         pass
     labels = [(f.get("label") or f["kind"]) for f in fl]
     killed = any(m["kills"] in (l or "") for l in labels)
+    # a function that could not be extracted (lost anchor, changed pin) is an assumed stub: the check would be undecided
+    lost = list(unit.extract_failed.keys()) + list(unit.hints_lost.keys())
     if s["tool_error"]:
         return {"mutant": idx, "status": "undecided", "detail": s["tool_error"][:200]}
     if killed:
         st = "killed"
     elif fl:
         st = "killed-by-other"
-    elif und or not s["ok"]:
+    elif und or not s["ok"] or lost:
         # only scaffolding (e.g. a loop invariant that carries the property) fails: the check would exit 2
         # (undecided) on this change — flagged, never a silent pass, but not a VIOLATION either
         st = "flagged-undecided"
